@@ -15,11 +15,13 @@ import subprocess
 import sys
 
 from .. import diff, env, runner
+from ..gen import memprogs, typing as T
 from ..gen.progs import ProgGen
 from ..gen.timegen import TimeGen
 from ..model import ast as A
 from ..model.refint import RefInt, Skip
 from . import common
+from .c04 import with_stack
 
 PROPERTY = 'C18'
 RULE = ('random sequential/time-travel programs + examples/*.hid; each compiled twice in-process and once per hash seed '
@@ -33,6 +35,44 @@ MAX_STEPS = 400_000
 LADDER = [16, 24, 36, 54, 80, 120, 180, 270, 400, 600, 900, 1400, 2000, 4000]
 
 
+def stack_monotone(res, src, args, word=2):
+    """a run that completes without stack overflow behaves identically at every larger stack size"""
+    CompilerError, _ = env.compiler_error_types()
+    try:
+        base = env.compile_src(src, word=word, stack=diff.GENEROUS_STACK)
+    except CompilerError:
+        return
+
+    def run_at(stack):
+        r = diff.run_lines(with_stack(base, stack), args, MAX_STEPS, monitors=False)
+        res['evaluations'] += 1
+        return r.outcome if r.kind == 'ok' else None
+    G = run_at(diff.GENEROUS_STACK)
+    if G is None or G.klass == 'TIMEOUT' or 'stack_overflow' in G.flags:
+        return
+    lo, hi = 0, diff.GENEROUS_STACK          # smallest size without a stack_overflow flag
+    while lo + 1 < hi:
+        mid = (lo + hi) // 2
+        o = run_at(mid)
+        if o is not None and 'stack_overflow' not in o.flags and o.klass != 'TIMEOUT':
+            hi = mid
+        else:
+            lo = mid
+    for stack in sorted(set(list(range(max(1, hi - 4), hi + 10)) + [hi + 16, hi + 50, 2 * hi + 100, 1000])):
+        o = run_at(stack)
+        if o is None or o.klass == 'TIMEOUT':
+            continue
+        if 'stack_overflow' in o.flags:
+            runner.count(res, 'sweep_overflows')
+            continue
+        if o.stream != G.stream or o.klass != G.klass:
+            runner.fail(res, 'M-STACK', f'run completes without stack overflow at stack {stack} ({o.klass} {o.out[-60:]!r}) but differs at the larger '
+                                        f'stack {diff.GENEROUS_STACK} ({G.klass} {G.out[-60:]!r})',
+                        diff.case_dict(src, args, word, stack, larger_stack=diff.GENEROUS_STACK), expected=G.brief(), observed=o.brief())
+            return
+        runner.count(res, 'stack_pairs_identical')
+
+
 class Tracking(RefInt):
     """RefInt that notes whether any integer value left the signed 16-bit range"""
     left16 = False
@@ -44,7 +84,7 @@ class Tracking(RefInt):
 
 
 def plan(tier, seed):
-    n, per = (16, 14) if tier == 'quick' else (48, 50)
+    n, per = (16, 10) if tier == 'quick' else (48, 50)
     return [{'kind': 'gen', 'seed': s, 'count': per, 'hashseeds': ['0', '1', '2', '3', str(10 + s % 97), str(1000 + s)]}
             for s in common.shard_seeds(seed, n)]
 
@@ -67,6 +107,26 @@ def run_shard(spec):
         else:
             prog, args = ProgGen(s, 'sequential', unreachable=0.3, hostile=0.01).program()
         progs.append((prog, args, A.render(prog)))
+    # programs whose meaning depends on the *preferred* element type of untyped array literals and on overload order
+    for i in range(6):
+        n = rng.randint(2, 4)
+        sigs = []
+        while len(sigs) < n:
+            sg = (rng.choice(T.OVER_PARAMS),)
+            if sg not in sigs:
+                sigs.append(sg)
+        calls = [(p,) for p in T.ALL if T.resolve(sigs, (p,)) is not None]
+        if calls:
+            progs.append((None, [], T.overload_program(sigs, calls)))
+    progs.append((None, [], T.program('\n    write([1, bv][1]); write([bv, 1][1]); write([bv, 300][1] is int); write([1, bv].length); write(["a", sv][1]); '
+                                      'write([fv, true][0]); write([ci, bv][0]); write([cb, 1, iv is byte][2]);')))
+    for tag, tsrc, targs in memprogs.cases(spec['seed'], 0)[:3]:
+        progs.append((None, targs, tsrc))
+    if spec['seed'] % 4 == 0:
+        from .c17 import CALLER_PROG
+        for n in ('12345', '-32768', '999'):
+            progs.append((None, [n, '7'], memprogs.stdlib_program()))
+        progs.append((None, ['12345', '-9', '100', '-32768'], CALLER_PROG))
     exdir = os.path.join(env.REPO, 'examples')
     if spec['seed'] % 1000 == 0 and os.path.isdir(exdir):
         for fn in sorted(os.listdir(exdir)):
@@ -108,6 +168,8 @@ def run_shard(spec):
     # ---- (b)(c)(d) behaviour across options
     for prog, args, src in progs:
         if prog is None:
+            if args is not None:
+                stack_monotone(res, src, args)
             continue
         cid = runner.case_id(src)
         nfun = len(prog.funcs)
@@ -134,35 +196,8 @@ def run_shard(spec):
             runner.count(res, 'lint_rejected')
         except Exception as e:  # noqa
             runner.fail(res, 'M-EXC', f'--lint: {type(e).__name__}: {e}', diff.case_dict(src, args, 2, 500, lint=True))
-        # (b) stack monotonicity
-        time_travel = A.uses_time_travel(prog)
-        first = None
-        ran = 0
-        for stack in LADDER:
-            if first is not None and ran >= 4:
-                break
-            run = diff.compile_and_run(src, args, word=2, stack=stack, max_steps=MAX_STEPS, monitors=False)
-            if run.kind != 'ok':
-                break
-            o = run.outcome
-            res['evaluations'] += 1
-            runner.count(res, 'vm_steps', o.steps)
-            if o.klass == 'TIMEOUT':
-                break
-            if first is None:
-                if 'stack_overflow' in o.flags:
-                    runner.count(res, 'ladder_overflows')
-                    continue
-                first = (stack, o)
-                continue
-            ran += 1
-            if o.stream != first[1].stream or o.klass != first[1].klass:
-                runner.fail(res, 'M-STACK', f'run completes without stack overflow at stack {first[0]} ({first[1].klass} '
-                                            f'{first[1].out[:60]!r}) but differs at stack {stack} ({o.klass} {o.out[:60]!r})',
-                            diff.case_dict(src, args, 2, stack, smaller_stack=first[0]),
-                            expected=first[1].brief(), observed=o.brief())
-                break
-            runner.count(res, 'stack_pairs_identical')
+        # (b) stack monotonicity: every size from the smallest one that does not overflow upwards
+        stack_monotone(res, src, args)
         # (c) word-size invariance
         try:
             ri = Tracking(prog, word=2, args=args)
